@@ -454,6 +454,7 @@ def run(tier):
     rule_R7(res, prog)
     rule_R8(res, prog)
     rule_R9(res, prog)
+    rule_R10(res, prog)
     return res.finish()
 
 
@@ -1065,3 +1066,70 @@ def rule_R9(res, prog):
     if n == 0 and prog.by_name.get("tls13FragMessageReadInit"):
         raise AnalysisBroken("C08.R9: tls13FragMessageReadInit has no call site")
     res.floor(rid, 1 if prog.by_name.get("tls13FragMessageReadInit") else 0)
+
+
+def rule_R10(res, prog):
+    """HKDF-Expand builds T(k-1) || info || counter in a fixed stack buffer; `info` is the HkdfLabel, whose context part is
+    peer-controlled in TLS 1.3 (the ticket_nonce of a NewSessionTicket).  The buffer must hold the largest digest the hash
+    selector can return, plus the largest info length the guard lets through, plus the counter octet:
+        sizeof(buf) >= max(psGetOutputBlockLength) + K + 1     where K is the constant of the fact `infoLen > K` false
+    at the copy of info.  All three quantities are taken from the current tree."""
+    from sa import cfgutil as cu
+    rid = "C08.R10"
+    res.rule(rid, "psHkdfExpand: the stack buffer holds max digest + max admitted info length + 1")
+    lst = prog.by_name.get("psHkdfExpand")
+    if not lst or not lst[0].blocks:
+        res.floor(rid, 0)
+        return
+    fn = lst[0]
+    gf = cu.guard_facts(fn)
+    # local arrays
+    arrays = {}
+    for b, ln, nd in fn.nodes():
+        if nd.get("k") == "decl":
+            v = nd.get("var") or {}
+            mm = re.match(r"^unsigned char\[(\d+)\]$", v.get("t") or "")
+            if mm:
+                arrays[v.get("n")] = int(mm.group(1))
+    # largest digest length
+    sel = prog.by_name.get("psGetOutputBlockLength")
+    hmax = None
+    if sel and sel[0].blocks:
+        vals = []
+        for b, ln, nd in sel[0].nodes():
+            if nd.get("k") == "ret" and nd.get("e") is not None:
+                e = strip(nd["e"])
+                if e is not None and e.get("k") == "int":
+                    vals.append(e["v"])
+                elif e is not None and not (e.get("k") == "un" and e["op"] == "-"):
+                    vals.append(None)
+        if vals and all(v is not None for v in vals):
+            hmax = max(v for v in vals)
+    n = 0
+    for b in fn.blocks:
+        for i, ln, x in cu.block_exprs(b):
+            for m in walk(x):
+                if not (m.get("k") == "call" and m.get("fn") in MEMFNS and len(m.get("a", [])) >= 3):
+                    continue
+                src = strip(m["a"][1])
+                ln_ = strip(m["a"][2])
+                if not (src is not None and src.get("k") == "var" and src.get("sc") == "p" and ln_ is not None and ln_.get("k") == "var" and ln_.get("sc") == "p"):
+                    continue
+                n += 1
+                K = None
+                for (txt, tr) in gf.get(b["id"], ()):
+                    mm = re.match(r"^\(%s > (\d+)\)$" % re.escape(ln_["n"]), txt)
+                    if mm and not tr:
+                        K = int(mm.group(1)) if K is None else min(K, int(mm.group(1)))
+                size = arrays.get("buf")
+                ok = K is not None and hmax is not None and size is not None and hmax + K + 1 <= size
+                f_ = None
+                if not ok:
+                    f_ = Finding(PROP, rid, fn.name, "HKDF scratch buffer smaller than what the guard admits",
+                                 "%s:%s psHkdfExpand(): copy of %s (%s bytes) into the stack buffer buf[%s]: the guard admits %s <= %s, the "
+                                 "largest digest is %s, +1 for the counter = %s bytes: a TLS 1.3 NewSessionTicket with a long ticket_nonce "
+                                 "(peer-controlled HkdfLabel context) overruns the buffer" % (
+                                     fn.relfile, ln, src["n"], ln_["n"], size, ln_["n"], K, hmax,
+                                     (hmax or 0) + (K or 0) + 1 if K is not None and hmax is not None else "?"), file=fn.relfile, line=ln)
+                res.instance(rid, "psHkdfExpand:%s buf[%s] >= %s + %s + 1" % (ln, size, hmax, K), ok, finding=f_)
+    res.floor(rid, 1)
